@@ -26,6 +26,7 @@ def spec_fn(a, b):
 def setup(world):
     world.opaque_globals[('yaql.language.utils', 'NO_VALUE')] = NV
     world.symbolic_sets = True
+    world.opaque_attr_default = True
     world.opaque_attrs['value_type'] = lambda recv, it: SVal(
         models.uf('pd.value_type', S.Val, S.Val)(recv.t))
 
